@@ -916,7 +916,7 @@ class Real:
             sort = None
             if toks[3] != "-":
                 k = int(toks[3])
-                sort = lambda x: (code(x) * (k + 1)) % 7  # noqa: E731
+                sort = lambda x: (code(x) * (k + 1)) % (3 if k == 1 else 7)  # noqa: E731
             r = plaintext.basic_render(u, rfunc=rf, sort=sort)
             if r is None:
                 return "ok none"
@@ -934,12 +934,18 @@ class Real:
             if r is None:
                 return "ok none"
             return "ok " + self.parse_puml(r)
-        if op == "pyvis":
+        if op in ("pyvis", "pyvisd", "pyvisc"):
             from edgegraph.output import pyvis as egpyvis
             u = self.pv(toks[1])
             rv = lambda v: "v%d" % self.vname(v)  # noqa: E731
             re_ = None if toks[2] == "-" else (lambda e: "e%d" % self.lname(e))
-            net = egpyvis.make_pyvis_net(u, rv, re_)
+            if op == "pyvisd":
+                # the caller's own Network options, among them directed=True
+                net = egpyvis.make_pyvis_net(u, rv, re_, network_kwargs={"directed": True, "height": "300px"})
+            elif op == "pyvisc":
+                net = egpyvis.pyvis_render_customizable(u, rv, re_)
+            else:
+                net = egpyvis.make_pyvis_net(u, rv, re_)
             nodes = ",".join("%s:%s" % (n["id"], n["label"]) for n in net.nodes)
             edges = ",".join("%s%s%s:%s" % (e["from"], ">" if e.get("arrows") == "to" else "-", e["to"],
                                             e.get("title", "-")) for e in net.get_edges())
